@@ -23,6 +23,8 @@ from harness.session import Session
 
 PROP = "C04"
 LEVEL = "exploration"
+TECHNIQUE = 'recording builder subclass + independent 4x4 matrix model + interpreter: per-word image check and end-to-end machine == M.position'
+LEVEL_TEXT = 'Held on random transform compositions (incl. arbitrary affine matrices and transform contexts) and partial-axis moves in both modes.'
 RULE = ("compositions (depth 1-6) of translate/rotate/scale (uniform, per-axis, negative)/reflect/mirror "
         "about random pivots, then partial-axis move/rapid/probe calls and tracer shapes in both distance "
         "modes, transform changed again 2-4 times per case; distinct = (transform-kind multiset, mode, "
